@@ -16,6 +16,33 @@ from sim.incremental import Monitor, ProtocolError
 from sim.loop import Sim
 
 _DEFAULTS = StreamItemQueue.__init__.__defaults__
+
+# Probe seam (this process only): which awaitables did the executor start to await through
+# with_abort_signal()?  An awaitable that got that far cannot have been abandoned by a task
+# that was cancelled before its first step.
+REACHED_AWAIT = set()
+_orig_with_abort_signal = IncrementalExecutor.__mro__[1].with_abort_signal
+
+
+def _recording_with_abort_signal(self, awaitable):
+    REACHED_AWAIT.add(id(awaitable))
+    return _orig_with_abort_signal(self, awaitable)
+
+
+IncrementalExecutor.__mro__[1].with_abort_signal = _recording_with_abort_signal
+
+# Probe seam: at which loop iteration was a stream item queue created?
+_CURRENT = {"sim": None}
+_orig_queue_init = StreamItemQueue.__init__
+
+
+def _recording_queue_init(self, *args, **kwargs):
+    sim = _CURRENT["sim"]
+    self._verif_created_poll = sim.poll if sim is not None else -1
+    _orig_queue_init(self, *args, **kwargs)
+
+
+StreamItemQueue.__init__ = _recording_queue_init
 CAPACITIES = (100, 1, 2, 3)
 PULLS = ("eager", "gated", "lazy")
 
@@ -35,6 +62,7 @@ class Knobs:
 class RunResult:
     def __init__(self):
         self.executor = None  # root executor (read-only probe access to shared sets)
+        self.cleanup_poll = None  # loop iteration at which the final cleanup could start
         self.kind = None  # single | incremental | raised
         self.payloads = []
         self.monitor = None
@@ -51,11 +79,11 @@ class RunResult:
 
 
 def set_capacity(cap):
-    StreamItemQueue.__init__.__defaults__ = (_DEFAULTS[0], _DEFAULTS[1], cap)
+    _orig_queue_init.__defaults__ = (_DEFAULTS[0], _DEFAULTS[1], cap)
 
 
 def reset_capacity():
-    StreamItemQueue.__init__.__defaults__ = _DEFAULTS
+    _orig_queue_init.__defaults__ = _DEFAULTS
 
 
 def run_incremental(scn, sched_tape, stop_factory=None, step_cap=None, lenient=False,
@@ -65,6 +93,8 @@ def run_incremental(scn, sched_tape, stop_factory=None, step_cap=None, lenient=F
     stop_factory(sim, tape, i, rs, req, rr) -> Stop object or None (C06).
     """
     sim = Sim(sched_tape, step_cap)
+    REACHED_AWAIT.clear()
+    _CURRENT["sim"] = sim
     knobs = Knobs(sched_tape)
     if force_early is not None:
         knobs.early = force_early
@@ -110,6 +140,7 @@ def run_incremental(scn, sched_tape, stop_factory=None, step_cap=None, lenient=F
         if isinstance(res, ExecutionResult):
             rr.kind = "single"
             rr.single = res.formatted
+            rr.cleanup_poll = sim.poll
             if stop is not None and hasattr(stop, "on_end"):
                 stop.on_end()
             return
@@ -129,6 +160,7 @@ def run_incremental(scn, sched_tape, stop_factory=None, step_cap=None, lenient=F
             if stop is not None and stop.close_now(k):
                 rr.waiting = "aclose"
                 rr.stopped = True
+                rr.cleanup_poll = sim.poll
                 try:
                     await it.aclose()
                 except Exception as e:  # noqa: BLE001
@@ -141,6 +173,7 @@ def run_incremental(scn, sched_tape, stop_factory=None, step_cap=None, lenient=F
                 ext.lazy = knobs.pull == "lazy"
                 await ext.fut
             rr.waiting = "anext"
+            rr.cleanup_poll = sim.poll  # (the pull after the last payload runs the cleanup)
             try:
                 p = await it.__anext__()
             except StopAsyncIteration:
